@@ -472,7 +472,8 @@ pub enum Op {
   DropWriter { h: usize },
   Compact,
   Reopen,
-  /// copy the index to a new root; 0 keep the original, 1 empty it, 2 remove it
+  /// copy the index to a new root; 0 keep the original, 1 empty it, 2 remove it,
+  /// 3 keep it and keep its `Index` handle open in this process
   Relocate {
     original: u8,
     /// name of the new root: 0 unrelated, 1 a textual prefix of the current
@@ -731,7 +732,7 @@ pub fn gen_ops(rng: &mut Rng, cfg: &Cfg, p: &GenParams) -> Vec<Op> {
         live.clear();
         readers.clear();
         ops.push(Op::Relocate {
-          original: rng.below(3) as u8,
+          original: rng.below(4) as u8,
           naming: rng.below(6) as u8,
         });
       }
